@@ -24,7 +24,7 @@ RULE = ("one input under the three stringencies for each of five entry points: h
         "of C13), single records (explicit names and/or scheme: untyped, NoRestrictions, gdc-1.0.0 with valid lines "
         "from the real classes' accepted texts; defects: field count, invalid/control-character field, names not "
         "matching the scheme, duplicated names, no line number), record.validate (reset on/off, scheme none/same/"
-        "other), whole files (the valid/defect/boundary/adversarial stream of C16, with and without sort orders and "
+        "other, stored columns modified in place: column_index or key reassigned), whole files (the valid/defect/boundary/adversarial stream of C16, with and without sort orders and "
         "contigs), writer sessions (header with/without scheme, 0-4 records some invalid); non-trivial: at least one "
         "validation error is collected in Silent mode; distinct by case hash")
 ASSUMPTIONS = [
@@ -135,6 +135,9 @@ def corpus():
         {"kind": "line", "stream": "corpus", "spec": {"line": "1\t\r2", "names": ["a", "a"], "scheme": None, "ln": 4}},
         {"kind": "validate", "stream": "corpus", "spec": {"line": "1\t2", "names": ["a", "b"], "scheme": None, "ln": 4},
          "reset": False, "vscheme": ["norestr", ["b", "a", "c"]]},
+        # stored columns modified in place: out-of-sync records are validation errors (AssertionError before the repair)
+        {"kind": "validate", "stream": "corpus", "spec": {"line": "1\t2", "names": ["a", "b"], "scheme": None, "ln": 9},
+         "reset": True, "vscheme": None, "tamper": [["idx", "a", 1], ["key", "b", "c"]]},
         {"kind": "writer", "stream": "corpus", "hlines": ["#version bogus"],
          "specs": [{"line": "1\t2", "names": ["a", "b"], "scheme": None, "ln": None},
                    {"line": "1", "names": ["a", "b"], "scheme": None, "ln": 2}]},
@@ -157,7 +160,14 @@ def generate(rng, n):
             names = spec["names"] or (R.make_scheme(spec["scheme"]).column_names() if spec["scheme"] else ["a"])
             vs = rng.choice([None, spec["scheme"], ["norestr", names[:]], ["norestr", names[::-1]],
                              ["norestr", names[:-1]], GDC])
-            out.append({"kind": "validate", "stream": stream, "spec": spec, "reset": rng.random() < 0.6, "vscheme": vs})
+            tamper = []
+            if stream != "valid" and rng.random() < 0.35:
+                for _ in range(rng.choice([1, 1, 2])):
+                    nm = rng.choice(names)
+                    tamper.append(["idx", nm, rng.choice([None, 0, 1, 7, -1])] if rng.random() < 0.6
+                                  else ["key", nm, rng.choice(["moved", names[0]])])
+            out.append({"kind": "validate", "stream": stream, "spec": spec, "reset": rng.random() < 0.6, "vscheme": vs,
+                        "tamper": tamper})
         elif kind == "reader":
             c = R.gen_reader_case(rng, stream)
             out.append({"kind": "reader", "stream": stream, "lines": c["lines"], "override": c["override"]})
@@ -185,7 +195,7 @@ def _wire(case, m):
     if k == "line":
         return R.wire_from_line(case["spec"], m)
     if k == "validate":
-        return R.wire_validate(case["spec"], m, case["reset"], case["vscheme"])
+        return R.wire_validate(case["spec"], m, case["reset"], case["vscheme"], case.get("tamper"))
     return R.wire_writer(case["hlines"], m, case["specs"])
 
 
@@ -198,7 +208,7 @@ def _impl(case, m):
     if k == "line":
         return R.impl_from_line(case["spec"], m)
     if k == "validate":
-        return R.impl_validate(case["spec"], m, case["reset"], case["vscheme"])
+        return R.impl_validate(case["spec"], m, case["reset"], case["vscheme"], case.get("tamper"))
     return R.impl_writer(case["hlines"], m, case["specs"])
 
 
